@@ -1,15 +1,15 @@
 --------------------------- MODULE MC_FactorKernel ---------------------------
 (* Bounded model for C03: every group of the catalogue GROUPS, every division grid div and FFT grid fft with entries in
-   DIVS / FFTS (both symmetric under the group, as Grid() asserts) and at most MAXTOT dense points, with and without
+   DIVS / FFTS (ZDIVS / ZFFTS along z; both symmetric under the group, as Grid() asserts) and at most MAXTOT dense points, with and without
    symmetry reduction.  The symmetry reduction of Grid.get_K_list runs as its loop: one action per visited K-point.
    A finished state (pc = "done") carries the K-list and the k-sets; each finished state is replayed on the real
    Grid / get_K_list / Data_K.kpoints_all. *)
 EXTENDS FactorKernel
 
 CONSTANTS GROUPS,      \* set of catalogue names
-          DIVS, FFTS,  \* allowed entries of NKdiv / NKFFT
+          DIVS, FFTS,  \* allowed entries of NKdiv / NKFFT along x and y
+          ZDIVS, ZFFTS, \* allowed entries along z
           MAXTOT,      \* bound on the number of dense grid points
-          PLANAR,      \* TRUE: only grids with n3 = 1
           KpDivides,   \* TRUE: Kp_fullBZ = K / NKFFT (the code); FALSE: a wrong K-shift (sensitivity)
           AbsorbAdds   \* TRUE: absorb() adds the factor of the absorbed point (the code); FALSE: forgets it (sensitivity)
 
@@ -18,11 +18,11 @@ vars == <<grp, gset, div, fft, sym, pc, i, w, klist, ksets>>
 
 (* gset: the elements of the group, computed once per initial state (PointGroup.symmetries) *)
 G == gset
-Vecs(S) == {<<a, b, c>> : a \in S, b \in S, c \in (IF PLANAR THEN {1} ELSE S)}
+Vecs(S, Z) == {<<a, b, c>> : a \in S, b \in S, c \in Z}
 
 Init == /\ grp \in GROUPS
         /\ gset = GroupOf(grp)
-        /\ div \in Vecs(DIVS) /\ fft \in Vecs(FFTS)
+        /\ div \in Vecs(DIVS, ZDIVS) /\ fft \in Vecs(FFTS, ZFFTS)
         /\ Prod3(Dense(div, fft)) <= MAXTOT
         /\ SymmetricGrid(div, gset) /\ SymmetricGrid(fft, gset)
         /\ sym \in BOOLEAN
@@ -58,7 +58,7 @@ Done == pc = "done"
 LoopIsFunctional == Done => klist = KList(div, G, sym)
 (* C03 *)
 InvDenseSymmetric == SymmetricGrid(Dense(div, fft), G)
-InvKSets      == Done => KSetsWellFormed(ksets, div, fft)
+InvKSets      == Done => (KSetsWellFormed(ksets, div, fft) /\ NoOverlap(ksets, div, fft))
 InvMultiset   == (Done /\ ~sym) => MultisetOnce(klist, ksets, div, fft)
 InvWeightSum  == Done => WeightSum(klist, div)
 InvOrbitReps  == (Done /\ sym) => OrbitReps(klist, div, G)
